@@ -37,6 +37,11 @@ def cases(tier):
         cs.append(dict(consumers=[KINDS[a], KINDS[b]], window=(2 if a == b == "delay" else 2.5) if q else 3))
     for combo in itertools.combinations_with_replacement(names[:4], 3):
         cs.append(dict(consumers=[KINDS[x] for x in combo], window=1.5 if q else 2))
+    # a delay adapter upstream of a push-based adapter (the adapter's push-time fetch asks for t - delay) next to consumers that run ahead
+    for other in ("direct", "scale", "linear"):
+        cs.append(dict(consumers=[[["F", 1], ["L"]], KINDS[other]], window=2 if q else 3))
+        cs.append(dict(consumers=[[["F", 2.5], ["L"]], KINDS[other]], window=2 if q else 3, dmax=2.5))
+    cs.append(dict(consumers=[[["F", 1], ["L"]]], window=3 if q else 4))
     # fan-out behind a shared pass-through adapter (one target at the output, several registered end points)
     for a, b in itertools.combinations_with_replacement(["direct", "scale", "linear"], 2):
         cs.append(dict(consumers=[KINDS[a], KINDS[b]], trunk=[["S", 2]], window=2 if q else 3))
@@ -46,7 +51,7 @@ def cases(tier):
     if not q:
         for combo in itertools.combinations_with_replacement(names[:4], 4):
             cs.append(dict(consumers=[KINDS[x] for x in combo], window=1.5, gaps=(1, 2)))
-    return [dict(cfg=dict(c, check_retention=True, dmax=1)) for c in cs]
+    return [dict(cfg=dict(dict(dmax=1), **c, check_retention=True)) for c in cs]
 
 
 def run(tier, seed, agg):
